@@ -39,6 +39,7 @@ pub fn run(fields: &[&str], cases: &mut impl Write, out: &mut impl Write, _line:
         "CONVM" => run_convm(fields, cases, out),
         "EQV" => run_eqv(fields, out),
         "LIBR" => run_libr(fields, out),
+        "SLICEB" => run_sliceb(fields, out),
         _ => writeln!(out, "{id} SKIP unknown-request").unwrap(),
     }));
     if let Err(e) = r {
@@ -859,6 +860,107 @@ fn run_eqv(fields: &[&str], out: &mut impl Write) {
     }
     if bad.is_empty() {
         writeln!(out, "{id} OK {} pairs on {} variables", results.len() / 2, graph.num_vars()).unwrap();
+    } else {
+        writeln!(out, "{id} ERR {}", clean(&bad.join("; "))).unwrap();
+    }
+}
+
+/// SLICEB id k net formulas
+/// C20 on networks of any size, by BDD operations only: for a few valid colours (the one the
+/// library picks, the "most positive" and the "most negative" one) the states that the result on
+/// the parametrised graph associates with the colour must equal the result computed on
+/// pick_witness(colour).  Both sides are sanitised results; the slice is moved into the encoding
+/// of the instantiated network with transfer_vertices_from.
+fn run_sliceb(fields: &[&str], out: &mut impl Write) {
+    let id = fields[1];
+    let k: u16 = fields[2].parse().unwrap();
+    let bn = match load_network(fields[3]) {
+        Ok(b) => b,
+        Err(e) => {
+            writeln!(out, "{id} SKIP network:{}", clean(&e)).unwrap();
+            return;
+        }
+    };
+    let graph = match get_extended_symbolic_graph(&bn, k) {
+        Ok(g) => g,
+        Err(e) => {
+            writeln!(out, "{id} SKIP graph:{}", clean(&e)).unwrap();
+            return;
+        }
+    };
+    let plain = match SymbolicAsyncGraph::new(&bn) {
+        Ok(g) => g,
+        Err(e) => {
+            writeln!(out, "{id} SKIP graph:{}", clean(&e)).unwrap();
+            return;
+        }
+    };
+    if plain.unit_colors().is_empty() {
+        writeln!(out, "{id} SKIP no-valid-colour").unwrap();
+        return;
+    }
+    let formulas: Vec<String> = split_list(fields[4]).iter().map(|h| unhex(h)).collect();
+    // colours, as sets of the canonical (plain) encoding
+    let mut colours: Vec<GraphColors> = vec![plain.unit_colors().pick_singleton()];
+    for positive in [true, false] {
+        let mut b = plain.unit_colors().as_bdd().clone();
+        for v in plain.symbolic_context().parameter_variables() {
+            let c = b.var_select(*v, positive);
+            if !c.is_false() {
+                b = c;
+            }
+        }
+        colours.push(GraphColors::new(b, plain.symbolic_context()).pick_singleton());
+    }
+    let mut results = Vec::new();
+    for f in &formulas {
+        match model_check_formula(f.as_str(), &graph) {
+            Ok(r) => results.push(r),
+            Err(e) => {
+                writeln!(out, "{id} ERR formula {} rejected: {}", hex(f), clean(&e)).unwrap();
+                return;
+            }
+        }
+    }
+    let mut bad = Vec::new();
+    let mut compared = 0usize;
+    for colour in &colours {
+        let instance = plain.pick_witness(colour);
+        let inst_graph = match get_extended_symbolic_graph(&instance, k) {
+            Ok(g) => g,
+            Err(e) => {
+                bad.push(format!("witness network does not load: {}", clean(&e)));
+                continue;
+            }
+        };
+        let inst_plain = SymbolicAsyncGraph::new(&instance).unwrap();
+        for (f, r) in formulas.iter().zip(results.iter()) {
+            let slice = r.intersect_colors(colour).vertices();
+            let slice = match inst_plain.transfer_vertices_from(&slice, &plain) {
+                Some(s) => s,
+                None => {
+                    bad.push(format!("slice of {} cannot be transferred", f));
+                    continue;
+                }
+            };
+            match model_check_formula(f.as_str(), &inst_graph) {
+                Ok(e) => {
+                    compared += 1;
+                    if e.vertices().as_bdd() != slice.as_bdd() {
+                        bad.push(format!(
+                            "{}: the colour's slice has {} states, the instantiated network gives {}",
+                            f,
+                            slice.approx_cardinality(),
+                            e.vertices().approx_cardinality()
+                        ));
+                    }
+                }
+                Err(e) => bad.push(format!("{} rejected on the instantiated network: {}", f, clean(&e))),
+            }
+        }
+    }
+    if bad.is_empty() {
+        writeln!(out, "{id} OK {} slices on {} variables", compared, graph.num_vars()).unwrap();
     } else {
         writeln!(out, "{id} ERR {}", clean(&bad.join("; "))).unwrap();
     }
